@@ -145,6 +145,16 @@ def step (st : St) (j : Json) : Except String (St × Json × List Fired) := do
     let gone := before.filter fun t => !queued.contains t && !histAll.contains t
     if !gone.isEmpty then
       fired := fired ++ [{ name := "de_left_queue_without_assignment", detail := jl (gone.map jn) }]
+  -- a signing request whose fee limit and balance cover the cost exactly (or more) is not refused for its fee
+  if op == "request" && e == Err.ok && (ierr == Generated.Err.bandtss_ErrFeeExceedsLimit || ierr == "sdk/5") then
+    fired := fired ++ [{ name := "affordable_signing_request_rejected", detail := mkObj [("err", js ierr)] }]
+  -- interim data of a finished attempt is removed: the attempt record and its partial signatures exist only for the
+  -- current attempt of a signing that is still scheduled for expiry
+  for (sg, k) in isigs.zip (List.range isigs.length) do
+    let atts := (jarr sg "attempts").toOption.getD []
+    for (a, n) in atts.zip (List.range atts.length) do
+      if a != Json.null && (s'.attempts (k + 1) (n + 1)).isNone && ierr == "" && op == "endBlock" then
+        fired := fired ++ [{ name := "finished_attempt_data_not_removed", detail := mkObj [("signing", jn (k + 1)), ("attempt", jn (n + 1))] }]
   -- a genesis export/import keeps every member's queue: the same pairs in the order they were registered
   if op == "reimport" then
     for (m, k) in imembers.zip (List.range imembers.length) do
